@@ -822,9 +822,11 @@ static long long handle_one(const J &cmd, W &w) {
         const ustr *n = cmd.getu("name"); static const ustr e;
         cif_value_tp *v = nullptr;
         bool want = cmd.geti("want", 1) != 0;
-        if (cmd.geti("reuse", 0)) { cif_value_create(CIF_LIST_KIND, &v); }
+        if (cmd.geti("reuse", 0)) { cif_value_create(CIF_LIST_KIND, &v); if (v) { cif_value_tp *m = nullptr; if (cif_value_create(CIF_CHAR_KIND, &m) == CIF_OK) { static const UChar prev[] = { 'p', 'r', 'e', 'v', 0 }; cif_value_copy_char(m, prev); cif_value_insert_element_at(v, 0, m); cif_value_free(m); } } }
         rc = FW(cif_container_get_value(c, U(n ? *n : e), want ? &v : nullptr));
         if (want && (rc == CIF_OK || rc == CIF_AMBIGUOUS_ITEM)) { w.key("v"); dump_value(w, v); }
+        // a value object the caller handed in stays the caller's, and valid, when the call fails: look at all of it
+        else if (want && v != nullptr) { w.key("kept"); dump_value(w, v); }
         cif_value_free(v);
     } else if (op == "set_value") {
         cif_container_tp *c = find(conts, cmd.gets("cont"));
